@@ -13,7 +13,7 @@ package main
 //   * HOSTNAMES AND URLS COMPOSED OF SEVERAL INDEXED LABELS (`adsrv.alpha1.bravo2.com`, `adsrv.bravo2.com`,
 //     `track.adsrv.charlie3.net` ...): one query walks 2..5 non-empty buckets, and many queries of the pool START with
 //     the same bucket and continue with different ones;
-//   * LONG RULE LINES: 0..8 rules of 500..700 bytes (around a 512-byte read), 1000..3000 bytes and 4000..9000 bytes (around
+//   * LONG RULE LINES: 0..6 rules of 500..700 bytes (around a 512-byte read), 1000..3000 bytes and 4000..7000 bytes (around
 //     and beyond the 4 KiB line buffer of a list) made of long `$client=` / `$domain=` / `$denyallow=` / `$ctag=` value
 //     lists whose LAST value decides: the pool asks about each of them with the deciding value and with another one, so
 //     a line whose tail is wrong gives a wrong answer.  Two thirds of the dense worlds are File-backed (cold cache
@@ -110,7 +110,7 @@ func r4GenDenseWorld(r *rng) (w *fWorld, pool []*fQuery, kind string) {
 		host, mod, last string
 	}
 	var longs []longRule
-	nLong := r.n(9)
+	nLong := r.n(7)
 	var longSizes []int
 	for j := 0; j < nLong; j++ {
 		var n int
@@ -124,7 +124,7 @@ func r4GenDenseWorld(r *rng) (w *fWorld, pool []*fQuery, kind string) {
 		case 4:
 			n = 4080 + r.n(32) // around 4096
 		default:
-			n = 4100 + r.n(5000)
+			n = 4100 + r.n(3000)
 		}
 		host := fmt.Sprintf("block%d.%s", j, pick(r, doms))
 		mod := pick(r, []string{"client", "client", "domain", "denyallow", "ctag"})
